@@ -29,3 +29,12 @@ Proof.
   intros b1 b2 ops1 ops2 chk p Hp Hn. apply search_same_routes; auto using reachable_inv_b.
 Qed.
 Print Assumptions C05_reachable_same_routes_same_answers.
+
+(* the same without side conditions: [RM n r i] says route r is stored in tree n with info i *)
+From WF Require Import Proofs.InsRoutesP Proofs.ReachOpsP.
+Theorem C05_reachable_same_route_sets_same_answers :
+  forall b1 b2 (ops1 ops2 : list op) chk p,
+    (forall r0 i, RM (r_root (run b1 ops1)) r0 i <-> RM (r_root (run b2 ops2)) r0 i) ->
+    rsearch chk (run b1 ops1) p = rsearch chk (run b2 ops2) p.
+Proof. exact reach_same_routes. Qed.
+Print Assumptions C05_reachable_same_route_sets_same_answers.
